@@ -29,7 +29,7 @@ ALLOWED_AXIOMS = {"propext", "Classical.choice", "Quot.sound"}
 FORBIDDEN = re.compile(r"\b(sorry|admit|native_decide|bv_decide|implemented_by|unsafe)\b|^axiom\s|maxHeartbeats\s+0\b")
 
 GOENV = {
-    "GOFLAGS": "-mod=mod",
+    "GOFLAGS": "-mod=readonly",
     "GOPROXY": "off",
     "GOSUMDB": "off",
     "GOTOOLCHAIN": "local",
